@@ -206,6 +206,7 @@ def inline_unknown_helpers(program, known_fns):
     if not new_fns:
         return report
     consumed = set()    # (caller key, block of the call that creates the future) whose await was spliced
+    hosts = {}          # helper -> named functions it was spliced into
     for _ in range(MAX_ROUNDS):
         changed = False
         for key in list(program.bodies):
@@ -230,6 +231,7 @@ def inline_unknown_helpers(program, known_fns):
                     callee = program.bodies[fn]
                     _splice(bj, c.bb, callee.j, c.args, c.dest, c.target, False)
                     report["spliced"].append("%s <- %s (call at %s)" % (key, fn, c.site))
+                    hosts.setdefault(fn, set()).add(key.split("::{closure")[0])
                     did = True
                 else:
                     co = program.bodies[fn + "::{closure#0}"]
@@ -246,6 +248,7 @@ def inline_unknown_helpers(program, known_fns):
                     _splice(bj, c.bb, co.j, c.args, c.dest, c.target, True, upargs)
                     consumed.add((key, make.bb))
                     report["spliced"].append("%s <- %s (awaited at %s)" % (key, fn, c.site))
+                    hosts.setdefault(fn, set()).add(key.split("::{closure")[0])
                     did = True
             if did:
                 program.bodies[key] = Body(bj, body.crate)
@@ -278,9 +281,13 @@ def inline_unknown_helpers(program, known_fns):
             program.spawn_alias[fn] = makers[0].split("::{closure")[0]
         if left == 0:
             away.add(fn)
-            for key in program.bodies:
-                if key.startswith(fn + "::"):
-                    away.add(key)
+            if is_async:
+                away.add(co_key)
+            # the closures written inside the helper are bodies of their own (the splice copies the code that *creates* them,
+            # not their code): they stay in every crate-wide scan, reported under the function the helper was spliced into
+            hs = {h for h in hosts.get(fn, ()) if h != fn}
+            if len(hs) == 1:
+                program.spawn_alias.setdefault(fn, next(iter(hs)))
     report["inlined_away"] = sorted(away)
     program.inlined_away = away
     return report
